@@ -160,16 +160,29 @@ func c07Queue(p *load.Program, r *oblig.Report) {
 	r.Check(okWait, rule, "batchQueue.Get waits on the condition variable while the queue is empty", p.Pos(get.Pos()), "for len(queue) == 0 && !closed { cond.Wait() }", "no cond.Wait()")
 	// the lock alias: cond.L = mutex in newBatchQueue
 	okAlias := false
+	var lockVals, mutexVals []ssa.Value
 	an.EachInstr(nq, func(ins ssa.Instruction) {
 		st, ok := ins.(*ssa.Store)
 		if !ok {
 			return
 		}
 		if fa, ok := st.Addr.(*ssa.FieldAddr); ok && an.FieldName(fa.X.Type(), fa.Field) == "L" && an.NamedIs(fa.X.Type(), "sync", "Cond") {
-			v := an.Unwrap(st.Val)
-			okAlias = isLoadOfField(v, "batchQueue", "mutex")
+			lockVals = append(lockVals, an.Unwrap(st.Val))
+		}
+		if fs, ok := fieldStoreIs(ins, "batchQueue", "mutex"); ok {
+			mutexVals = append(mutexVals, an.Unwrap(fs.Val))
 		}
 	})
+	// either cond.L = bq.mutex, or one mutex value stored into both (&sync.Cond{L: m} next to mutex: m)
+	for _, v := range lockVals {
+		okAlias = isLoadOfField(v, "batchQueue", "mutex")
+		for _, m := range mutexVals {
+			if _, isAlloc := m.(*ssa.Alloc); isAlloc && m == v && len(mutexVals) == 1 {
+				okAlias = true
+			}
+		}
+	}
+	okAlias = okAlias && len(lockVals) == 1
 	r.Check(okAlias, rule, "newBatchQueue wires the condition variable to the queue mutex", p.Pos(nq.Pos()), "bq.cond.L = bq.mutex", "not found")
 }
 
